@@ -14,7 +14,7 @@ RULE = ("mnemonic.seed events compared with hashlib PBKDF2-HMAC-SHA512(canonical
         "pairs, compatibility characters, Hangul, astral plane, combining-mark reorderings, random assigned code points "
         "(Unicode 14 repertoire). distinct = distinct (phrase text, passphrase, profile); non-trivial = 64-byte seed compared")
 REQUIRED = (["len-%d" % n for n in bip39.LEGAL_COUNTS] + ["pw-empty", "pw-ascii", "pw-long-salt>128B", "nfkd-changes-salt", "pw-astral",
-            "layout-messy", "phrase>128B", "phrase<=128B", "nfkd-pair-equal", "pw-hangul", "pw-combining-reorder", "pw-whitespace-edge", "layout-unicode-whitespace"])
+            "layout-messy", "phrase>128B", "phrase<=128B", "nfkd-pair-equal", "pw-hangul", "pw-combining-reorder", "pw-whitespace-edge", "layout-unicode-whitespace", "pw-combining-run>30", "pw-combining-run<=30"])
 ASSUMPTIONS = ["passphrase code points are restricted to those assigned in Unicode 14 (Python's table); the Unicode stability "
                "policy guarantees the crate's newer table normalises them identically"]
 
@@ -133,7 +133,7 @@ def _phrase(rng):
 
 
 def _password(rng):
-    k = rng.randrange(12)
+    k = rng.randrange(13)
     if k == 0:
         return "", []
     if k == 1:
@@ -161,6 +161,12 @@ def _password(rng):
         # white space at the edges / only white space: part of the passphrase, never trimmed
         core = "".join(chr(rng.randint(0x21, 0x7e)) for _ in range(rng.randint(0, 6)))
         return rng.choice([" ", "\t", "\n", "  "]) + core + rng.choice(["", " ", "\n", "\u00a0"]), ["pw-whitespace-edge"]
+    if k == 11:
+        # long runs of combining marks (the "stream-safe" limit of some normalisers is 30) and zalgo text
+        marks = ["\u0301", "\u0323", "\u0308", "\u0327", "\u0302", "\u031b", "\u0303", "\u0330", "\u0489", "\u20dd", "\u0f74", "\u3099"]
+        n = rng.choice([29, 30, 31, 32, 33, 60, 61, 100, 300])
+        run = "".join(rng.choice(marks[:4]) if rng.random() < 0.7 else rng.choice(marks) for _ in range(n))
+        return rng.choice(["a", "e\u0301", "\u1e69", "", "Z"]) + run + rng.choice(["", "x", "\u00e9" + run[:31]]), ["pw-combining-run>30" if n > 30 else "pw-combining-run<=30"]
     if k == 10:
         return rng.choice(["mnemonic", "MNEMONIC", "\x00", "a\x00b", "\x7f", "\\", "'\"", "%s", "\u200b", "\ufeff"]), []
     return rand_unicode(rng, rng.randint(1, 24)), []
